@@ -176,6 +176,11 @@ def check(case, rec: Rec) -> None:
     rec.nontrivial = reindexes >= 2 and len(flags) >= 2
 
 
+def sample_view(case):
+    return f"{len(case['dir'])} pages {sorted(case['dir'])}; steps: " + "; ".join(
+        s["op"] + "".join(f" {k}={v}" for k, v in s.items() if k not in ("op", "p", "n")) for s in case["steps"])
+
+
 def parts(tier):
     quick = tier == "quick"
     return [HypPart(name="history", check=check, strategy=_case,
